@@ -227,7 +227,43 @@ func runConc(args []string) {
 	} else {
 		fmt.Println("sanity ok")
 	}
-	// final state against the last linearised writes is covered by the get operations; close and remove
+	// quiescent state: the index must refer to exactly the live documents, once per tree (C05's invariant)
+	live := map[uint64]bool{}
+	for _, id := range c.GetAllIDs() {
+		live[id] = true
+	}
+	idx := "ok"
+	for ti, root := range c.VerifForest() {
+		seen := map[uint64]int{}
+		var walk func(n *syz.VerifNode)
+		walk = func(n *syz.VerifNode) {
+			if n == nil {
+				return
+			}
+			if n.Leaf {
+				for _, id := range n.IDs {
+					seen[id]++
+				}
+				return
+			}
+			walk(n.Left)
+			walk(n.Right)
+		}
+		walk(root)
+		for id, k := range seen {
+			if !live[id] {
+				idx = fmt.Sprintf("tree %d refers to document %d, which is not live", ti, id)
+			} else if k != 1 {
+				idx = fmt.Sprintf("tree %d holds document %d %d times", ti, id, k)
+			}
+		}
+		for id := range live {
+			if seen[id] == 0 {
+				idx = fmt.Sprintf("tree %d misses live document %d", ti, id)
+			}
+		}
+	}
+	fmt.Printf("index %s\n", idx)
 	c.Close()
 	os.Remove(path)
 }
